@@ -97,7 +97,7 @@ pub fn run(ctx: &Ctx) -> Report {
     rep.assumptions.insert(drop_privileges());
     let scratch = Scratch::new("c06");
     let root = scratch.path.clone();
-    let sets = ctx.share(ctx.scale(480, 8000)) as u32;
+    let sets = ctx.share(ctx.scale(480, 24000)) as u32;
     let rep_cell = std::cell::RefCell::new(&mut rep);
     let failing: std::cell::RefCell<Option<(ConcCase, String, String)>> = std::cell::RefCell::new(None);
     let found = prop_search(ctx, 6, sets, 40, &gen_with(false, vec![0, 1, 2, 3], vec![0, 1, 2, 3], 2, op_kinds, 2), |g, exploring| {
